@@ -7,6 +7,7 @@ package vrt
 import (
 	"encoding/hex"
 	"fmt"
+	"runtime"
 )
 
 // Entry is one nondeterministic value in call order.
@@ -26,6 +27,8 @@ type Result struct {
 	Timeout  bool       `json:"timeout,omitempty"`
 	Mismatch string     `json:"mismatch,omitempty"`
 	Infeasible bool     `json:"infeasible,omitempty"`
+	Measured uint64     `json:"measured_alloc,omitempty"`
+	NativeAsserts []AssertEv `json:"native_asserts,omitempty"`
 }
 
 type AssertEv struct {
@@ -43,6 +46,7 @@ type state struct {
 	pos     int
 	res     *Result
 	counts  map[string]int
+	nativeOnly bool
 }
 
 var cur *state
@@ -144,6 +148,10 @@ func Assume(c bool) {
 }
 
 func Assert(label string, c bool) {
+	if cur.nativeOnly {
+		cur.res.NativeAsserts = append(cur.res.NativeAsserts, AssertEv{label, c})
+		return
+	}
 	cur.res.Asserts = append(cur.res.Asserts, AssertEv{label, c})
 }
 
@@ -184,3 +192,39 @@ func Symbolic() bool { return false }
 // Thorough reports the tier under the engine; natively the bounds it selects
 // only matter through the replayed Choice values.
 func Thorough() bool { return false }
+
+// BytesTail returns n arbitrary bytes in a buffer with `tail` bytes of spare
+// capacity. Under the engine the spare bytes are poisoned (any read of them is
+// a read outside the input); natively they hold TailFill.
+func BytesTail(name string, n, tail int) []byte {
+	b := make([]byte, n, n+tail)
+	for i := range b {
+		b[i] = U8(fmt.Sprintf("%s_%d", name, i))
+	}
+	t := b[n : n+tail]
+	for i := range t {
+		t[i] = TailFill
+	}
+	return b
+}
+
+// TailFill is the byte BytesTail puts in the spare capacity natively.
+var TailFill byte = 0xA5
+
+// Measure runs f; natively the bytes allocated while it runs are recorded.
+func Measure(f func()) {
+	var a, b runtime.MemStats
+	runtime.ReadMemStats(&a)
+	f()
+	runtime.ReadMemStats(&b)
+	if cur != nil {
+		cur.res.Measured += b.TotalAlloc - a.TotalAlloc
+	}
+}
+
+// NativeOnly runs f only in a native replay (the engine skips it).
+func NativeOnly(f func()) {
+	cur.nativeOnly = true
+	defer func() { cur.nativeOnly = false }()
+	f()
+}
